@@ -1,4 +1,3 @@
-use std::ops::Add;
 use std::time::{Duration, SystemTime};
 
 use crate::cache::clock::ClockType;
@@ -103,8 +102,18 @@ impl<Value> StoredValue<Value> {
         self.expire_after
     }
 
+    /// Calculates the expiry as `now + time_to_live`.
+    /// A time_to_live that is too large to be represented as a `SystemTime` saturates to the farthest expiry that can be represented,
+    /// instead of panicking in `SystemTime::add`.
     pub(crate) fn calculate_expiry(time_to_live: Duration, clock: &ClockType) -> SystemTime {
-        clock.now().add(time_to_live)
+        let now = clock.now();
+        let mut time_to_live = time_to_live;
+        loop {
+            if let Some(expiry) = now.checked_add(time_to_live) {
+                return expiry;
+            }
+            time_to_live /= 2;
+        }
     }
 }
 
